@@ -250,6 +250,20 @@ def build(plan):
                             pp.pop(f, None)
                     if int(pp.get("profile", 3)) == 3 and rnd.random() < 0.5:
                         pp.pop("profile", None)
+            if sp["delete_misc"]:
+                # extended transform parameters whose value is the documented default may be left out
+                tpx = None
+                if "picture_parse" in du:
+                    tpx = du["picture_parse"]["wavelet_transform"]["transform_parameters"]
+                elif "fragment_parse" in du and "transform_parameters" in du["fragment_parse"]:
+                    tpx = du["fragment_parse"]["transform_parameters"]
+                etpx = tpx.get("extended_transform_parameters") if tpx is not None else None
+                if etpx is not None:
+                    dflt = B.vc2_default_values[B.ExtendedTransformParameters]
+                    for f in ("wavelet_index_ho", "dwt_depth_ho"):
+                        if f in etpx and f in dflt and int(etpx[f]) == int(dflt[f]) and rnd.random() < 0.6:
+                            del etpx[f]
+                            kinds_used.add((f, "deleted"))
             if sp["delete_misc"] and rnd.random() < 0.3:
                 pi.pop("parse_info_prefix", None)
             if sp["delete_misc"] and "padding" in du and not du["padding"]["bytes"] and rnd.random() < 0.5:
